@@ -121,6 +121,53 @@ cache_network_dump		(const cache_network *	cn,
 		 cn->zombie);
 }
 
+_vbi_inline unsigned int
+hash				(vbi_pgno		pgno)
+{
+	return pgno % HASH_SIZE;
+}
+
+/* Call this when the subpage with number subno of page pgno can no
+   longer be found in the cache, i.e. after it has been removed from its
+   hash list: it was deleted, replaced or became a zombie. Narrows the
+   range of cached subpage numbers if the subpage was at either end. */
+static void
+cache_network_subpage_removed	(cache_network *	cn,
+				 vbi_pgno		pgno,
+				 vbi_subno		subno)
+{
+	struct ttx_page_stat *ps;
+	const cache_page *cp, *cp1;
+	vbi_subno subno_min;
+	vbi_subno subno_max;
+
+	ps = cache_network_page_stat (cn, pgno);
+
+	if (subno > (vbi_subno) ps->subno_min
+	    && subno < (vbi_subno) ps->subno_max)
+		return;
+
+	subno_min = 0xFFFF;
+	subno_max = 0;
+
+	FOR_ALL_NODES (cp, cp1, cn->cache->hash + hash (pgno), hash_node) {
+		if (cp->pgno != pgno || cp->network != cn)
+			continue;
+
+		if (cp->subno < subno_min)
+			subno_min = cp->subno;
+
+		if (cp->subno > subno_max)
+			subno_max = cp->subno;
+	}
+
+	if (subno_min > subno_max)
+		subno_min = 0; /* none left */
+
+	ps->subno_min = subno_min;
+	ps->subno_max = subno_max;
+}
+
 /* Removes Teletext page from network statistics. */ 
 static void
 cache_network_remove_page	(cache_network *	cn,
@@ -138,6 +185,10 @@ cache_network_remove_page	(cache_network *	cn,
 	ps = cache_network_page_stat (cn, cp->pgno);
 
 	--ps->n_subpages;
+
+	/* The page has been removed from its hash list already.
+	   (No-op if it was a zombie.) */
+	cache_network_subpage_removed (cn, cp->pgno, cp->subno);
 }
 
 /* Adds Teletext page to network statistics. */
@@ -922,12 +973,6 @@ cache_page_copy			(cache_page *		dst,
 	return TRUE;
 }
 
-_vbi_inline unsigned int
-hash				(vbi_pgno		pgno)
-{
-	return pgno % HASH_SIZE;
-}
-
 static vbi_bool
 page_in_cache			(const vbi_cache *	ca,
 				 const cache_page *	cp)
@@ -970,6 +1015,9 @@ delete_page			(vbi_cache *		ca,
 			unlink_node (&cp->hash_node);
 
 			cp->priority = CACHE_PRI_ZOMBIE;
+
+			cache_network_subpage_removed (cp->network,
+						       cp->pgno, cp->subno);
 		}
 
 		return;
@@ -1560,6 +1608,9 @@ _vbi_cache_put_page		(vbi_cache *		ca,
 			unlink_node (&old_cp->hash_node);
 
 			old_cp->priority = CACHE_PRI_ZOMBIE;
+
+			cache_network_subpage_removed (cn, old_cp->pgno,
+						       old_cp->subno);
 			old_cp = NULL;
 		} else {
 			/* Got our first replacement candidate. */
